@@ -2,7 +2,7 @@
    owner.  Only statements, [exact], and [Print Assumptions]. *)
 From Coq Require Import String.
 From Martian Require Import Lib.Bytes Extracted.Journal K.ForkName K.Journal
-  Proofs.ForkName Proofs.Journal.
+  Proofs.ForkName Proofs.Journal Proofs.JournalParse.
 
 (* Distinct map keys have distinct safe (percent-encoded) forms: all keys,
    any bytes. *)
@@ -53,6 +53,30 @@ Theorem C11_get_fork_exact : forall toks i t,
   get_fork false toks t = Some i.
 Proof. exact get_fork_exact_lemma. Qed.
 Print Assumptions C11_get_fork_exact.
+
+(* Parsing (the model of jobJournalRe under leftmost-first matching) the
+   journal name a job writes returns exactly the writer's node name - any
+   bytes, even containing .fork - fork token, chunk digits, uniquifier and
+   prefixed file name. *)
+Theorem C11_parse_print_journal : forall j x,
+  jo_id j = s_fork ++ x -> x <> [] -> uniq_ok (jo_uniq j) -> no_dot (jo_file j) ->
+  parse_journal (journal_name j) = Some (printed j).
+Proof. exact parse_print_journal_lemma. Qed.
+Print Assumptions C11_parse_print_journal.
+
+(* Routing inside the node found by name: the parsed token looked up in the
+   node's fork list (any order, distinct tokens) is the writer's fork, and
+   chunk, attempt and file are the writer's.  (The lookup of the node itself
+   by name equality, Node.find, is not part of this statement.) *)
+Theorem C11_routing_exact_within_node : forall toks i j x,
+  NoDup toks -> jo_id j = s_fork ++ x -> x <> [] -> uniq_ok (jo_uniq j) ->
+  no_dot (jo_file j) -> nth_error toks i = Some (fork_tok (jo_id j)) ->
+  exists p, parse_journal (journal_name j) = Some p /\
+    jp_fq p = jo_rel j /\ get_fork false toks (jp_idx p) = Some i /\
+    chunk_index p = match jo_run j with RMain => Some (jo_chunk j) | _ => None end /\
+    jp_uniq p = jo_uniq j /\ jp_state p = run_prefix (jo_run j) ++ jo_file j.
+Proof. exact routing_within_node_lemma. Qed.
+Print Assumptions C11_routing_exact_within_node.
 
 (* An update carrying another attempt's uniquifier is not recorded. *)
 Theorem C11_stale_uniquifier_ignored : forall cur seen,
@@ -124,4 +148,18 @@ Example C11_get_fork_nonvacuous :
 Proof.
   cbv zeta. split; [|vm_compute; split; reflexivity].
   repeat constructor; cbn; intuition discriminate.
+Qed.
+
+(* a main job of chunk 7 of 12 of the fork (a/fork_b, c) of a node whose name
+   itself looks like a journal name *)
+Example C11_parse_print_nonvacuous :
+  let j := mkJ (bs "P.fork0.chnk1.S") (bs "fork_a%2Ffork_b/fork_c") RMain 7 12
+               (bs "0123abcdef") (bs "complete") in
+  jo_id j = s_fork ++ bs "_a%2Ffork_b/fork_c" /\ uniq_ok (jo_uniq j) /\ no_dot (jo_file j) /\
+  journal_name j = bs "P.fork0.chnk1.S.fork_a%252Ffork_b%2Ffork_c.chnk07.u0123abcdef.complete" /\
+  parse_journal (journal_name j) = Some (printed j) /\
+  jp_idx (printed j) = bs "_a%252Ffork_b%2Ffork_c" /\ chunk_index (printed j) = Some 7%N.
+Proof.
+  cbv zeta. split; [reflexivity|]. split; [right; split; reflexivity|].
+  split; [reflexivity|]. vm_compute. repeat split.
 Qed.
